@@ -1,1 +1,4 @@
+pub mod finalize;
 pub mod graph;
+pub mod reject;
+pub mod simrun;
